@@ -70,7 +70,7 @@ def plan(tier, seed):
 		sch = [(6, 3, 4, 'u2', 'u2'), (5, 4, 3, 'u2', 'u2'), (5, 3, 4, 'u8', 'u4'), (4, 4, 4, 'u4', 'i2'), (6, 2, 6, 'i8', 'u8')]
 	for container in ('array', 'hdf5', 'siglist'):
 		tasks.append(('t_big', dict(container=container, tier=tier)))
-	for func in ('pairwise', 'pairwise-flat', 'matrix'):
+	for func in ('pairwise', 'pairwise-flat', 'matrix', 'array'):
 		for dtype in ('u2', 'i8'):
 			tasks.append(('t_small_full', dict(func=func, dtype=dtype)))
 	tasks.append(('t_mixed_widths', dict()))
@@ -225,6 +225,23 @@ def run_config(sh, fx, v):
 			sh.violation('wrote-outside-caller-view', case)
 			return
 		sh.count('strided_output_views')
+	# the reference collection (and the queries) are inputs: a bulk call must leave them as they were - the next call uses the same objects
+	try:
+		intact = len(refs) == n and all(np.asarray(refs[j]).tolist() == refs_plain[j].tolist() for j in range(n))
+	except Exception:
+		intact = False
+	if not intact:
+		sh.violation('reference-collection-modified-by-bulk-call', case, [r.tolist() for r in refs_plain], None)
+		fx.cache.pop((coll, v['container'], dtype), None)       # do not carry the damaged object into the next configuration
+		return
+	if func == 'array':
+		# ... and a second call on the same objects gives the same cells
+		res2 = jaccarddist_array(queries[0], refs)
+		sh.evals += 1
+		if not np.array_equal(np.ascontiguousarray(res2, dtype=np.float32).view(np.uint32).reshape(shape), exp):
+			sh.violation('cell-mismatch', dict(case, second_call_on_the_same_objects=True), exp.tolist(), np.asarray(res2).tolist())
+			fx.cache.pop((coll, v['container'], dtype), None)
+			return
 	if func == 'pairwise':
 		if not np.array_equal(got, got.T) or np.any(np.diag(got) != 0):
 			sh.violation('pairwise-not-symmetric-zero-diagonal', case, None, got.tolist())
@@ -273,7 +290,7 @@ def t_small_full(func, dtype):
 	with fixtures.workdir('c05f') as d:
 		fx = Fix(d)
 		try:
-			for coll, container, index, out, threads in itertools.product(D['coll'], D['container'], idx, D['out'], [1, 2]):
+			for coll, container, index, out, threads in itertools.product(D['coll'], D['container'], idx if func != 'array' else ['none'], D['out'], [1, 2]):
 				v = dict(DEFAULT, coll=coll, container=container, dtype=dtype, func=func, chunk=None if func != 'matrix' else 1, index=index, out=out, threads=threads, qdtype='same')
 				if out == 'none':
 					for size in (1, 2, 4, 9, 16, 25):
